@@ -232,4 +232,162 @@ theorem repeat_forever_chainFrom {α} (v : α) (count : Option Int) (m : Nat) (t
     simp only [chainFrom, repeatValueP, wait, Int.add_zero, List.map_nil, List.nil_append, List.map_cons,
       List.cons_append, ih, List.replicate_succ]
 
+
+/-! ## the virtual-time run vs the isolated chain -/
+
+
+/-- terminal notifications only in last position -/
+def wfEmits {α} : List (Notif α) → Bool
+  | [] => true
+  | [_] => true
+  | x :: y :: r => !x.isTerminal && wfEmits (y :: r)
+
+def endsTerm {α} : List (Notif α) → Bool
+  | [] => false
+  | [x] => x.isTerminal
+  | _ :: y :: r => endsTerm (y :: r)
+
+theorem deliver_wf {α} (t : Int) (emits : List (Notif α)) (h : wfEmits emits = true) :
+    Sim.deliver t false emits = (endsTerm emits, emits.map (fun x => (t, x))) := by
+  induction emits with
+  | nil => rfl
+  | cons x r ih =>
+    cases r with
+    | nil => simp [Sim.deliver, endsTerm]
+    | cons y r' =>
+      simp only [wfEmits, Bool.and_eq_true, Bool.not_eq_true'] at h
+      have := ih h.2
+      simp only [Sim.deliver, h.1, this, endsTerm, List.map_cons]
+
+/-- the run from this action on is "quiet": every action runs strictly before the dispose time, the
+scheduler's spin counter (`k` = its value when this action is dequeued, after a possible reset) never
+exceeds 100, no exception escapes, emissions are well-formed, and the chain ends within `n` actions. -/
+def quiet {σ α} (P : Producer σ α) (disp : Int) : Nat → Int → Nat → σ → Bool
+  | 0, _, _, _ => false
+  | n + 1, t, k, s =>
+    let r := P.step s
+    decide (t < disp) && decide (k ≤ 100) && r.escapes.isNone && wfEmits r.emits &&
+      (match r.next with
+       | none => true
+       | some (s', d) =>
+         !endsTerm r.emits &&
+           quiet P disp n (t + wait d) (if t + d.getD 0 > t then 0 else k + 1) s')
+
+theorem wait_eq (t : Int) (d : Option Int) : t + wait d = if t + d.getD 0 > t then t + d.getD 0 else t := by
+  cases d with
+  | none => simp [wait]
+  | some d =>
+    simp only [wait, Option.getD_some]
+    by_cases h : d > 0
+    · have : t + d > t := by omega
+      simp [h, this]
+    · have : ¬ (t + d > t) := by omega
+      simp [h, this]
+
+open Sim in
+theorem run_disp_only {σ α} (P : Producer σ α) (fuel : Nat) (st : St σ α) (disp : Int)
+    (hq : st.queue = [(disp, .disp)]) : (run P fuel st).out = st.out := by
+  cases fuel with
+  | zero => rfl
+  | succ f =>
+    simp only [run, hq]
+    cases f with
+    | zero => rfl
+    | succ f' => simp [run]
+
+open Sim in
+theorem run_prod {σ α} (P : Producer σ α) (disp : Int) (n : Nat) :
+    ∀ (fuel : Nat) (c : Int) (k : Nat) (due : Int) (s : σ) (o : List (Int × Notif α)),
+      quiet P disp n (if due > c then due else c) (if due > c then 0 else k) s = true →
+      n + 1 ≤ fuel →
+      (run P fuel { clock := c, spin := k, queue := [(due, .prod s), (disp, .disp)], subscribed := true,
+                    stopped := false, out := o, escaped := none }).out
+        = o ++ chainFrom P n (if due > c then due else c) s := by
+  induction n with
+  | zero => intro fuel c k due s o hq; simp [quiet] at hq
+  | succ n ih =>
+    intro fuel c k due s o hq hf
+    obtain ⟨f, rfl⟩ : ∃ f, fuel = f + 1 := ⟨fuel - 1, by omega⟩
+    simp only [quiet, Bool.and_eq_true, decide_eq_true_eq, Option.isNone_iff_eq_none] at hq
+    obtain ⟨⟨⟨⟨ht, hk⟩, hesc⟩, hwf⟩, hnext⟩ := hq
+    -- the dequeue: clock and spin
+    have hclock : (if due > c then (due, 0) else if k > 100 then (c + 1, 0) else (c, k)) =
+        ((if due > c then due else c), (if due > c then 0 else k)) := by
+      by_cases h : due > c
+      · simp [h]
+      · simp only [h, if_false] at hk ⊢
+        have : ¬ k > 100 := by omega
+        simp [this]
+    simp only [run, hclock, Bool.false_eq_true, if_false, deliver_wf _ _ hwf, hesc, chainFrom]
+    generalize ht' : (if due > c then due else c) = t at *
+    generalize hk' : (if due > c then 0 else k) = k' at *
+    cases hn : (P.step s).next with
+    | none =>
+      simp only [hn] at hnext ⊢
+      have : (if endsTerm (P.step s).emits = true then [(disp, Act.disp)] else schedule t [(disp, Act.disp)] (none : Option (σ × Option Int))) = [(disp, Act.disp)] := by
+        split <;> rfl
+      rw [this, run_disp_only P f _ disp rfl]
+      simp
+    | some sd =>
+      obtain ⟨s', d⟩ := sd
+      simp only [hn, Bool.and_eq_true, Bool.not_eq_true'] at hnext ⊢
+      obtain ⟨hnt, hq'⟩ := hnext
+      simp only [hnt, Bool.false_eq_true, if_false, schedule]
+      -- the next item is due before the dispose action
+      have hq'' := hq'
+      rw [wait_eq] at hq''
+      have hdue : t + d.getD 0 < disp := by
+        cases n with
+        | zero => simp [quiet] at hq''
+        | succ m =>
+          simp only [quiet, Bool.and_eq_true, decide_eq_true_eq] at hq''
+          have := hq''.1.1.1.1
+          split at this <;> omega
+      have henq : enqueue [(disp, Act.disp)] (t + d.getD 0, (Act.prod s' : Act σ)) =
+          [(t + d.getD 0, Act.prod s'), (disp, Act.disp)] := by
+        simp [enqueue, hdue]
+      rw [henq]
+      have := ih f t (k' + 1) (t + d.getD 0) s' (o ++ List.map (fun x => (t, x)) (P.step s).emits) hq'' (by omega)
+      rw [this, wait_eq, List.append_assoc]
+
+open Sim in
+/-- the recorded run equals the producer's isolated chain when the run is quiet -/
+theorem record_eq_chain {σ α} (P : Producer σ α) (n fuel : Nat) (sub disp : Int) (h0 : 0 ≤ sub) (hlt : sub < disp)
+    (hq : match P.first with
+          | none => True
+          | some (s, d) => quiet P disp n (sub + wait d) (if sub + d.getD 0 > sub then 0 else 1) s = true)
+    (hf : n + 2 ≤ fuel) :
+    (record P fuel sub disp).out = chain P n sub := by
+  obtain ⟨f, rfl⟩ : ∃ f, fuel = f + 1 := ⟨fuel - 1, by omega⟩
+  have hq0 : enqueue (enqueue ([] : List (Int × Act σ)) (disp, .disp)) (sub, .sub) = [(sub, .sub), (disp, .disp)] := by
+    simp [enqueue, hlt]
+  have hclock : (if sub > 0 then (sub, 0) else if (0 : Nat) > 100 then ((0 : Int) + 1, 0) else ((0 : Int), (0 : Nat))) = (sub, 0) := by
+    by_cases h : sub > 0
+    · simp [h]
+    · have : sub = 0 := by omega
+      subst this; simp
+  simp only [record, hq0, run, hclock, chain]
+  cases hfirst : P.first with
+  | none =>
+    simp only [schedule]
+    rw [run_disp_only P f _ disp rfl]
+  | some sd =>
+    obtain ⟨s, d⟩ := sd
+    simp only [hfirst] at hq
+    rw [wait_eq] at hq
+    have hdue : sub + d.getD 0 < disp := by
+      cases n with
+      | zero => simp [quiet] at hq
+      | succ m =>
+        simp only [quiet, Bool.and_eq_true, decide_eq_true_eq] at hq
+        have := hq.1.1.1.1
+        split at this <;> omega
+    have henq : enqueue [(disp, Act.disp)] (sub + d.getD 0, (Act.prod s : Act σ)) =
+        [(sub + d.getD 0, Act.prod s), (disp, Act.disp)] := by
+      simp [enqueue, hdue]
+    simp only [schedule, henq]
+    have := run_prod P disp n f sub (0 + 1) (sub + d.getD 0) s [] hq (by omega)
+    rw [wait_eq]
+    simpa using this
+
 end Pure.Sources
